@@ -129,6 +129,8 @@ def str_value(avoid: frozenset = frozenset()):
         # annotation shape with a non-ASCII letter: always quoted canonically; NAME{q} with such a name is repaired by the
         # lenient tokenizer and (documented limitation) may be refused by octave_write(lenient=true)
         st.sampled_from(["CAFÉ<strong>", "NAME<qualité>", "Ünï<x>", "naïve_x<ß>"]).map(S("annotation_u")),
+        # NUMBER% (optionally with a word glued on): quoted canonically, may be written bare; the number's text is kept as written
+        st.sampled_from(["60%", "12.50%", "007%", "1e3%", "0.10%", "100%_complete", "-0%", "1.0%", "-2.50%", "25%_done", "3.140%"]).map(S("percent")),
         st.builds(lambda a, bs: f"{a}<{','.join(bs)}>", WORD, st.lists(WORD, min_size=0, max_size=3)).map(S("constructor")),
         st.lists(WORD, min_size=2, max_size=4).map(" ".join).map(S("multiword")),
         st.builds(lambda w0, ts: " ".join([w0] + ts), WORD,
